@@ -378,6 +378,7 @@ class DiagLayer:
 
     def _decode(self, message: bytes, candidate_services: Iterable[DiagService]) -> List[Message]:
         decoded_messages: List[Message] = []
+        last_error: Optional[DecodeError] = None
 
         for service in candidate_services:
             try:
@@ -405,10 +406,14 @@ class DiagLayer:
                     except DecodeError:
                         pass
 
+                # a candidate which cannot decode the message does
+                # not apply; the other candidates might, though.
                 if not gnr_found:
-                    raise e
+                    last_error = e
 
         if len(decoded_messages) == 0:
+            if last_error is not None:
+                raise last_error
             raise DecodeError(
                 f"None of the services {[x.short_name for x in candidate_services]} could parse {message.hex()}."
             )
